@@ -7,6 +7,7 @@ import (
 	"bytes"
 	"context"
 	"fmt"
+	"io"
 	"net/http"
 	"net/http/httptest"
 	"regexp"
@@ -294,6 +295,41 @@ func main() {
 		layout.ServeHTTP(httptest.NewRecorder(), httptest.NewRequest("GET", "/page", nil))
 		return [2]context.Context{got, templ.InitializeContext(context.Background())}
 	}})
+	// many handles, scripts and classes in one process: the 1st, 64th, 65th, 256th ... handle created must behave
+	// like the second (an id- or bit-indexed table has its boundaries there). Each of 300 handles is used three times
+	// in each of two contexts: the body appears exactly once per context.
+	{
+		handles := make([]*templ.OnceHandle, 300)
+		for i := range handles {
+			handles[i] = templ.NewOnceHandle()
+		}
+		body := func(i int) templ.Component {
+			return templ.ComponentFunc(func(ctx context.Context, w io.Writer) error {
+				_, err := fmt.Fprintf(w, "<i>h%d</i>", i)
+				return err
+			})
+		}
+		for c := 0; c < 2; c++ {
+			ctx := templ.InitializeContext(context.Background())
+			for round := 0; round < 3; round++ {
+				for i, h := range handles {
+					var b strings.Builder
+					if err := h.Once().Render(templ.WithChildren(ctx, body(i)), &b); err != nil {
+						run.Violation("once-many-handles", fmt.Sprintf("handle %d: %v", i, err), map[string]any{"handle": i})
+						continue
+					}
+					want := ""
+					if round == 0 {
+						want = fmt.Sprintf("<i>h%d</i>", i)
+					}
+					if b.String() != want {
+						run.Violation("once-many-handles", fmt.Sprintf("the %d-th once handle created in this process, use %d in context %d: rendered %q, want %q", i+1, round+1, c, b.String(), want), map[string]any{"handle": i, "use": round + 1})
+					}
+				}
+			}
+		}
+		run.Cov["once_handles_in_one_process"] = len(handles)
+	}
 	// stylesheet endpoint serves the registered rules
 	if _, sheet := middlewareCtx(c1(), c2()); !strings.Contains(sheet, "."+c1ID+"{") || !strings.Contains(sheet, "."+c2ID+"{") {
 		run.Violation("stylesheet-endpoint", "the CSS middleware's stylesheet endpoint does not serve the registered classes: "+vlib.Quote(sheet), map[string]any{"sheet": sheet})
